@@ -368,9 +368,16 @@ def run_case(case, ctx):
             opt["_mic_repls"] = np.array(np.ceil(2 * opt["mic"] / cellnow), dtype=int) if ortho else None
         if "charges" in chosen:
             opt["charges"] = [float(x) for x in np.round(rng.uniform(-2, 2, len(S)), 3)]
+            if case["s"] % 2 == 0:
+                # very small charges, which print in exponent notation (1e-05), and a file written with %e throughout
+                opt["charges"][0] = 1e-05
+                opt["charges"][-1] = -2.5e-06
+                st.count("charge_files_with_numbers_in_exponent_notation")
             opt["chargefile"] = os.path.join(tmp, "q.txt")
             with open(opt["chargefile"], "w") as f:
-                f.write("\n".join(repr(x) for x in opt["charges"]) + "\n")
+                f.write("\n".join((repr(x) if case["s"] % 4 else "%.6e" % x) for x in opt["charges"]) + "\n")
+            if case["s"] % 4 == 0:
+                opt["charges"] = [float("%.6e" % x) for x in opt["charges"]]
         if "pp" in chosen:
             opt["pp"] = True
         outfmt = case["outformat"]
@@ -427,6 +434,8 @@ def requirements(stats, tier):
     for o in OPTS[:9] + ["replace_without_find"]:
         if not stats.has("option_exercised_singly", o):
             need.append("option class %s never exercised singly" % o)
+    if stats.get("charge_files_with_numbers_in_exponent_notation") < (5 if tier == "quick" else 500):
+        need.append("charge files with numbers in exponent notation: %d" % stats.get("charge_files_with_numbers_in_exponent_notation"))
     if stats.get("mic_values_that_are_an_exact_multiple_of_half_an_edge") < (5 if tier == "quick" else 500):
         need.append("--mic values that are exactly k/2 edge lengths: %d" % stats.get("mic_values_that_are_an_exact_multiple_of_half_an_edge"))
     if stats.get("mic_values_within_a_few_1e-4_of_a_multiple_of_an_edge") < (5 if tier == "quick" else 500):
